@@ -63,6 +63,39 @@ def copy_table():
     return table
 
 
+def time_sources():
+    """PatternFormatter's TimeToken::appendToString: which clock the two RELATIVE formats read - the steady time stamp carried by
+    the message (lmsg.steadyTime(): TSMessage) or the clock at the moment of formatting (TSClock), which in an asynchronous pipeline
+    is the moment the logger thread got round to the message"""
+    src = strip_comments(rd('formatters/patternformatter.cpp'))
+    m = need(re.search(r'class\s+TimeToken\b', src), 'patternformatter.cpp: class TimeToken')
+    body = src[m.end():]
+    e = re.search(r'\n(?:class|struct)\s+\w+', body)
+    body = body[:e.start()] if e else body
+    a = need(re.search(r'void\s+appendToString\s*\(\s*const\s+LogMessage\s*&\s*(\w+)\s*,', body), 'TimeToken::appendToString(const LogMessage &, ...)')
+    var = a.group(1)
+    fn = body[a.end():]
+    e = re.search(r'\n\s*(?:size_t|int|void|QString)\s+\w+\s*\(', fn)
+    fn = fn[:e.start()] if e else fn
+    out = {}
+    marks = [(k, need(re.search(r'm_format\s*==\s*QLatin1String\s*\(\s*"%s"\s*\)' % k, fn), 'TimeToken: branch for the "%s" format' % k).end())
+             for k in ('process', 'boot')]
+    for k, at in marks:
+        later = [x for _, x in marks if x > at]
+        nxt = re.search(r'\belse\b', fn[at:])
+        end = min(later + [at + nxt.start() if nxt else len(fn)])
+        seg = fn[at:end]
+        from_msg = re.search(r'\b%s\s*\.\s*steadyTime\s*\(\s*\)' % re.escape(var), seg) is not None
+        from_clk = re.search(r'\bnow\s*\(|currentMSecsSinceEpoch|currentDateTime|QElapsedTimer|clock_gettime', seg) is not None
+        if from_clk:
+            out[k] = 'TSClock'
+        elif from_msg:
+            out[k] = 'TSMessage'
+        else:
+            raise AnchorError('ANCHOR NOT FOUND: TimeToken "%s" format: neither %s.steadyTime() nor a clock read' % (k, var))
+    return out
+
+
 def to_coq(ir):
     out = []
     for x in ir:
@@ -98,7 +131,8 @@ def generate():
     lg = strip_comments(rd('logger.cpp'))
     pm = walk(lg, 'Logger::processMessage', 'Logger::processMessage', view='async', guards='take')
     tab = copy_table()
-    out = HDR % 'src/qtlogger/logmessage.h, ownthreadhandler.h'
+    ts = time_sources()
+    out = HDR % 'src/qtlogger/logmessage.h, ownthreadhandler.h, formatters/patternformatter.cpp'
     out += 'Require Import List.\nImport ListNotations.\nRequire Import QtlVerif.AsyncDefs.\n'
     out += '(* members of LogMessage as initialised by its copy constructor; a member not listed keeps its default initialiser *)\n'
     order = ['FType', 'FText', 'FFile', 'FLine', 'FFunc', 'FCat', 'FTime', 'FSteady', 'FTid', 'FFmt', 'FAttrs']
@@ -108,4 +142,6 @@ def generate():
     out += '(* OwnThreadHandler<BaseHandler>::Worker::customEvent *)\nDefinition src_custom_event : list ainstr :=\n  %s.\n' % to_coq(cev)
     out += '(* does Logger::processMessage reach flush() (Sink::flush on the CALLING thread) while the own thread is running? *)\n'
     out += 'Definition src_caller_flushes_while_worker_runs : bool := %s.\n' % ('true' if flush_when_running(pm) else 'false')
+    out += '(* PatternFormatter, TimeToken::appendToString: the clock read by %{time process} / %{time boot} *)\n'
+    out += 'Definition src_time_process : tsrc := %s.\nDefinition src_time_boot : tsrc := %s.\n' % (ts['process'], ts['boot'])
     return {'SrcAsync.v': out}
